@@ -131,4 +131,11 @@ def sample_points(rng, comp, domains, nx, n):
             else:
                 x.append(hi + 0.5 * (hi - lo) * rng.random())     # beyond the domain
         pts.append(x)
+    # always: one point on the lower edge and one on the upper edge of one input's domain (the Leja edge nodes sit next to, not on, the edges;
+    # the edge of a U(0,1) or min-max normalised input is exactly 0.0 in surrogate space)
+    for edge in (0, 1):
+        k0 = rng.randrange(nx)
+        x = [float(domains[k][0]) + (float(domains[k][1]) - float(domains[k][0])) * rng.random() for k in range(nx)]
+        x[k0] = float(domains[k0][edge])
+        pts.append(x)
     return pts
